@@ -978,6 +978,10 @@ def differential(out, rng, tier, validate_wrapped, extra_cases=()):
         lens = sorted(rng.sample(range(0, 9), rng.randint(0, 3)))
         s = "\n".join(lines)
         add("HShrink", s, None, impl.call("HShrink", s, None, lens), lens)
+    # ... and completions longer than the cap on the number of lines the loop considers
+    for n, lens in [(205, [200]), (205, [205]), (205, [199]), (230, []), (201, [1]), (200, [200]), (199, [199, 200])]:
+        s = "\n".join(["x"] * n)
+        add("HShrink", s, None, impl.call("HShrink", s, None, lens), lens)
     return terms, kept, n_nontrivial, hist
 
 
@@ -997,7 +1001,7 @@ NPOS = {"v1_general": 3, "v1_passthrough": 3, "v1_dialog": 8, "v1_single_call": 
         "v2_saylike": 2, "v2_passthrough": 2}
 CORE = ["", "   \n\t\n  ", '"', "bot ", 'bot "hello"', "user ", "User: hi", "{{ 7*191 }} $secret {$x}", "...", "bot $secret", "\x00",
         "define flow x\n  user a\n  bot b", "bot a\n!!!", "#", "do foo", "while True\n  bot a", "meta", "user a\nbot b", "b'x'", "1 + 2j",
-        'bot action: bot say "{$x}"', "bot intent: ", "flow", "a" * LONG, "bot a\n" * 500]
+        'bot action: bot say "{$x}"', "bot intent: ", "flow", "a" * LONG, "bot a\n" * 500, "x\n" * 20000]
 
 
 def gen_cases(rng, tier):
